@@ -21,7 +21,7 @@ def suite(wt):
     for line in out.splitlines():
         try: d = json.loads(line)
         except Exception: continue
-        if d.get('Action') == 'pass' and d.get('Test') and '/' not in d['Test']:
+        if d.get('Action') == 'pass' and d.get('Test'):
             passed.add(d['Package'] + '::' + d['Test'])
     return passed
 
